@@ -458,6 +458,11 @@ pub fn classify6(text: &str, cfg: &LuaFormatConfig) -> Option<&'static str> {
     {
         return Some("comment-min-column+statement-with-trailing-comment");
     }
+    if cfg.layout.max_blank_lines == 0 && text.contains("\n\n") && text.matches("---").count() >= 2 {
+        // comment blocks separated by blank lines are merged by the first pass; the merged block is then
+        // aligned as one group
+        return Some("max-blank-lines-0+doc-comment-blocks-separated-by-blank-lines");
+    }
     if cfg.align.continuous_assign_statement {
         // two consecutive statements of a block that are both assignments / local declarations
         let is_assign = |n: &emmylua_parser::LuaSyntaxNode| matches!(n.kind(), LuaKind::Syntax(LuaSyntaxKind::LocalStat | LuaSyntaxKind::AssignStat));
@@ -533,6 +538,19 @@ pub fn classify6(text: &str, cfg: &LuaFormatConfig) -> Option<&'static str> {
     if multiline_seq {
         return Some("relayout-only:input-has-multi-line-table-call-or-parameter-list");
     }
+    // a lone carriage return is a line break for the lexer but not for the layout rules (`contains('\n')`)
+    if text.replace("\r\n", "").contains('\r') {
+        return Some("relayout-only:input-has-lone-carriage-return");
+    }
+    // a function body written on one line has to be broken by the first pass
+    let one_line_closure = root.descendants().any(|n| {
+        n.kind() == LuaKind::Syntax(LuaSyntaxKind::ClosureExpr)
+            && !n.text().contains_char('\n')
+            && n.children().any(|b| b.kind() == LuaKind::Syntax(LuaSyntaxKind::Block) && b.children().next().is_some())
+    });
+    if one_line_closure {
+        return Some("relayout-only:closure-body-written-on-one-line");
+    }
     {
         use emmylua_formatter::ExpandStrategy::Always;
         if cfg.layout.table_expand == Always || cfg.layout.call_args_expand == Always || cfg.layout.func_params_expand == Always {
@@ -541,7 +559,11 @@ pub fn classify6(text: &str, cfg: &LuaFormatConfig) -> Option<&'static str> {
     }
     let mut wide = cfg.clone();
     wide.layout.max_line_width = 1_000_000;
-    if first != reformat_lua_code(&src, &wide) {
+    // the width limit decides a layout in the first pass, or in the second one (widths are measured from the
+    // source column of the construct, which the first pass changes)
+    if first != reformat_lua_code(&src, &wide)
+        || second != reformat_lua_code(&SourceText { text: &first, level: level_of(cfg) }, &wide)
+    {
         return Some("relayout-only:line-width-limit-forces-line-breaks");
     }
     if first.lines().any(|l| l.len() > cfg.layout.max_line_width) {
@@ -658,6 +680,7 @@ pub fn run(args: &Args, report: &mut Report) {
         "while x do\n  break -- b\nend\ngoto done -- g\n::done:: -- l\nreturn 1 -- r\n",
         "---@class (exact) A some desc\n---@class Bcd other\nlocal t = {}\n",
         "local s = 'C:\\\\dir\\\\\"'\nlocal t = \"it's\"\nlocal u = 'say \"x\"'\n", "x = 1 -- last",
+        "x = --a\n 1\nz, w = 1, -- c\n 2 -- d\nlocal p = -- e\n 3 -- f\nreturn x, -- g\n y -- h\n",
         "---@alias A<T> T -?\n---@alias (partial) Bcd<K, V> table<K, V>\nlocal x\n---@alias Opt\n---|> \"collect\" # full\n---| \"stop\" # stops\n---@alias Other string\nlocal y\n",
         "local a = 1 -- one\nlocal bcd = 22 -- two\nfoo(a, function() x() y() end, function() z() w() end)\n",
     ].iter().enumerate() {
